@@ -317,6 +317,13 @@ impl FixtureDatabase {
             .any(|component| component.as_os_str() == "site-packages")
     }
 
+    /// Whether an analysis of the file has recorded anything for it.
+    pub(crate) fn is_indexed(&self, canonical_path: &Path) -> bool {
+        self.file_definitions.contains_key(canonical_path)
+            || self.imports.contains_key(canonical_path)
+            || self.usages.contains_key(canonical_path)
+    }
+
     /// The lock that serialises analyses of one file.
     pub(crate) fn analysis_lock(&self, canonical_path: &Path) -> Arc<std::sync::Mutex<()>> {
         Arc::clone(
